@@ -317,8 +317,10 @@ def mid_history(st, rng, res, info, maxn, judge):
         if rng.random() < 0.3:
             n = rng.randrange(0, min(maxn, 9000))
         kind = rng.choice(gens.KINDS)
+        if maxn >= 20000 and n > 65536 and rng.random() < 0.6:
+            kind = rng.choice(gens.FAR_KINDS)          # window-edge generators: distances 65533..65540, far runs
         src = gens.data(rng, kind, n)
-        if calls and rng.random() < 0.5:
+        if calls and rng.random() < 0.5 and kind not in gens.FAR_KINDS:
             prev = calls[-1][1]
             src = (prev[:len(src) // 2] + src)[:n]
         b = bound(n)
